@@ -508,15 +508,14 @@ class LSMTree(Entity):
         )
         self._memtable.set_clock(self._clock)
 
-        # Flush to SSTable
-        sstable = old_memtable.flush()
-        self._sstable_bytes_written += sstable.size_bytes
-
-        # Write latency for creating SSTable on disk
-        pages = max(1, sstable.key_count // 16)
+        # Write latency for creating SSTable on disk. The frozen memtable keeps
+        # serving reads until the SSTable is installed in L0.
+        pages = max(1, old_memtable.size // 16)
         yield pages * self._sstable_write_latency
 
-        # Add to L0
+        # Flush to SSTable and add to L0
+        sstable = old_memtable.flush()
+        self._sstable_bytes_written += sstable.size_bytes
         self._levels[0].append(sstable)
         self._total_memtable_flushes += 1
 
